@@ -102,8 +102,13 @@ impl PerVisibleAlphabetConstraints {
                 let mut result = PerVisibleAlphabetConstraints::default_for(string_type);
                 match &**elem_or_set {
                     ElementOrSetOperation::Element(e) => {
-                        if let Some(mut p) = Self::from_subtype_elem(Some(e), string_type)? {
-                            result += &mut p;
+                        match Self::from_subtype_elem(Some(e), string_type)? {
+                            Some(mut p) => result += &mut p,
+                            // the characters of an included type are not known here
+                            None if matches!(e, SubtypeElements::ContainedSubtype { .. }) => {
+                                return Ok(None)
+                            }
+                            None => (),
                         }
                     }
                     ElementOrSetOperation::SetOperation(s) => {
@@ -119,9 +124,14 @@ impl PerVisibleAlphabetConstraints {
                         let mut elems = Vec::new();
                         flatten_set(&mut elems, s);
                         for elem in elems {
-                            if let Some(mut p) = Self::from_subtype_elem(Some(&elem), string_type)?
-                            {
-                                result += &mut p;
+                            match Self::from_subtype_elem(Some(&elem), string_type)? {
+                                Some(mut p) => result += &mut p,
+                                // an included type whose characters are not known here must
+                                // not fall out of the set: no alphabet can be stated
+                                None if matches!(elem, SubtypeElements::ContainedSubtype { .. }) => {
+                                    return Ok(None)
+                                }
+                                None => (),
                             }
                         }
                     }
